@@ -21,6 +21,16 @@
     PeakBounded / DeepIsCut and prints each ladder in factored form with the predicted
     class; the real expand() must return a string without raising within the time bound;
     a cut must come with a recorded error; a class other than predicted is DRIFT.
+ O  the documented OPTIONS of expand() x HISTORIES of calls on one page: the TLC universe C16Q of Gen_Expander (pages that
+    hold 2-3 #invoke calls / parser functions / templates / argument references side by side, nested and coming out of
+    template bodies x the 16 combinations of pre_expand / expand_parserfns / expand_invoke / observing hooks) and, through
+    the FILE universe, seeded random OPTION VECTORS (the switches, templates_to_expand / templates_to_not_expand,
+    need_pre_expand sets, template_fn returning None / a string, post_template_fn returning None / a string) x pages built
+    from several calls of each kind in every place (side by side, in an argument, in a branch, in a link, in a template body).
+    Each case runs (i) on a freshly started page and (ii) as one call of a HISTORY of 2-3 expand() calls on ONE started page
+    (no start_page between them; the twin's law StackRestored says every call leaves the path as it found it, so the
+    prediction of a call does not depend on its predecessors).  Verdict of C05 only: an exception, a non-string, an overrun
+    of the time bound, or an error element without a recorded message is the VIOLATION; output differences are DRIFT.
 (b) totality of the parser functions: harness/c05b.py (spec/Expr.tla etc.).
 """
 from __future__ import annotations
@@ -35,7 +45,7 @@ from pathlib import Path
 import common
 import expander as ex
 import transclusion as tr
-from c16 import PREBODY
+from c16 import PREBODY, flat_items
 from common import Outcome, Scratch, pmap, tlc
 
 PID = "C05"
@@ -67,9 +77,40 @@ def replay_chunk(groups):
     return res
 
 
+def opt_text(op):
+    """the non-default keyword arguments of the expand() call of a case, as text"""
+    if not op:
+        return ""
+    a = []
+    if op["pre"]:
+        a.append("pre_expand=True")
+    if op["hasExp"]:
+        a.append(f"templates_to_expand={sorted(op['exp'])}")
+    if op["hasNot"]:
+        a.append(f"templates_to_not_expand={sorted(op['nots'])}")
+    if not op["pfns"]:
+        a.append("expand_parserfns=False")
+    if not op["invoke"]:
+        a.append("expand_invoke=False")
+    if op["tfn"] != "none":
+        a.append("template_fn=<returns %s>" % ("a string" if op["tfn"] == "marker" else "None"))
+    if op["pfn"] != "none":
+        a.append("post_template_fn=<returns %s>" % ("a string" if op["pfn"] == "replace" else "None"))
+    return ", ".join(a)
+
+
 def judge(o: Outcome, c, ob, origin, model=True):
     o.evaluations += 1
-    case = {"origin": origin, "lib": {k: tr.render_body(v) for k, v in c["lib"].items()}, "page": ob["src"][:400],
+    call = "expand(" + ", ".join(x for x in ("text", opt_text(c.get("o"))) if x) + ")" if opt_text(c.get("o")) else "expand()"
+    hist = ob.get("history")
+    where = ""
+    if hist:
+        where = (f" as call {len(hist) + 1} on one started page (no start_page in between) after " + "; ".join(f"expand({h[0][:80]!r}{', ' + h[1] if h[1] else ''})" for h in hist)
+                 + f" [expand_stack before the call: {ob['before'][:4]}]")
+    elif origin.startswith(("O", "VO")):
+        where = " on a freshly started page"
+    case = {"origin": origin, **({"options": opt_text(c.get("o")) or "defaults", "history": hist, "stack_before": ob["before"][:6], "stack_after": ob["after"][:6]}
+                                 if origin.startswith(("O", "VO")) else {}), "lib": {k: tr.render_body(v) for k, v in c["lib"].items()}, "page": ob["src"][:400],
             "out": (ob["out"] or "")[:400], "exception": ob["exc"], "wall_s": round(ob["wall"], 2), "messages": ob["msgs"][:5]}
     if ob["exc"] is not None:
         if origin.startswith("nest-") and "-pre-" in origin and "RecursionError" in ob["exc"]:
@@ -78,13 +119,13 @@ def judge(o: Outcome, c, ob, origin, model=True):
             o.classify(case, f"expand(pre_expand=True) raised {ob['exc']} on {origin}: calls left unexpanded do not count towards the depth limit",
                        [DEV_UNEXPANDED], cls="exception-unexpanded-nesting")
         else:
-            o.violation(case, f"expand() raised {ob['exc']}", cls="exception")
+            o.violation(case, f"{call} raised {ob['exc']}{where}", cls="exception-options" if where else "exception")
         return
     if not isinstance(ob["out"], str):
-        o.violation(case, "expand() did not return a string", cls="type")
+        o.violation(case, f"{call} did not return a string{where}", cls="type")
         return
     if ob["wall"] > TIME_BOUND:
-        o.violation(case, f"expand() needed {ob['wall']:.1f}s (> {TIME_BOUND}s) on a small page", cls="time")
+        o.violation(case, f"{call} needed {ob['wall']:.1f}s (> {TIME_BOUND}s) on a small page{where}", cls="time")
         return
     real_cut = ("<ERR:loop:" in ob["nout"]) or ("<ERR:depth>" in ob["nout"])
     real_msg = any(s in ("core/1115", "core/1422") for _, s in ob["msgs"])
@@ -166,14 +207,14 @@ DEV_UNEXPANDED = "UnexpandedCallArgsUncounted"
 class LadderTLC(threading.Thread):
     """Runs the ladder generator (and the demo of the deviation) beside the rest of the check."""
 
-    def __init__(self, cfg, check):
+    def __init__(self, cfg, check, module="Gen_ExpanderDepth", env=None):
         super().__init__(daemon=True)
-        self.cfg, self.check = cfg, check
+        self.cfg, self.check, self.module, self.env = cfg, check, module, env
         self.res = self.err = None
 
     def run(self):
         try:
-            self.res = tlc("Gen_ExpanderDepth", self.cfg, workers=1, timeout=3000, check=self.check)
+            self.res = tlc(self.module, self.cfg, workers=1, timeout=3000, check=self.check, **({"env": self.env} if self.env else {}))
         except BaseException as e:  # noqa: BLE001  (re-raised by the main thread)
             self.err = e
 
@@ -293,6 +334,127 @@ def judge_ladder(o: Outcome, c, ob):
                           "model_out": tr.text(c["out"])[:120], "real_out": ob["nout"][:120]})
 
 
+# ---------------------------------------------------------------------------------------
+# O: options of expand() x histories of calls on one started page
+HIST_LEN = 3  # calls per history
+
+
+def _delta_msgs(ctx, ne, nw):
+    return [("error", m.get("called_from")) for m in ctx.errors[ne:]] + [("warning", m.get("called_from")) for m in ctx.warnings[nw:]]
+
+
+def option_chunk(groups):
+    """every case of a group (one library / need set = one context) (i) on a freshly started page, (ii) as a member of a
+    history: HIST_LEN consecutive cases of a seeded shuffle are expanded on ONE started page, no start_page in between."""
+    common.use_repo()
+    cases = _G["ocases"]
+    res = []
+    with Scratch("c05o-") as d:
+        for gi, idxs in enumerate(groups):
+            c0 = cases[idxs[0]]
+            ctx = ex.make_ctx(d, c0["lib"], c0["need"], PREBODY, f"o{gi}", enwikt=c0.get("enw", True))
+            try:
+                quick_ones = []
+                for idx in idxs:
+                    c = cases[idx]
+                    has_loop = any(it.get("fn") == "loop" for it in flat_items(c["page"]))
+                    ctx.start_page("Pg")
+                    ob = ex.run_case(ctx, c, timeout=1 if has_loop else None, hard_limit=TIME_BOUND + 5)
+                    ob.update(idx=idx, msgs=ex.msg_summary(ctx), history=None)
+                    ob.pop("hooks", None)
+                    res.append(ob)
+                    if not has_loop:
+                        quick_ones.append(idx)
+                rng = random.Random(common.seed() * 7919 + idxs[0])
+                rng.shuffle(quick_ones)
+                for k in range(0, len(quick_ones), HIST_LEN):
+                    ctx.start_page("Pg")
+                    hist = []
+                    for idx in quick_ones[k:k + HIST_LEN]:
+                        c = cases[idx]
+                        ne, nw = len(ctx.errors), len(ctx.warnings)
+                        ob = ex.run_case(ctx, c, hard_limit=TIME_BOUND + 5)
+                        ob.update(idx=idx, msgs=_delta_msgs(ctx, ne, nw), history=list(hist))
+                        ob.pop("hooks", None)
+                        res.append(ob)
+                        hist.append((ob["src"], opt_text(c["o"])))
+                        if ob["exc"] is not None:
+                            # the state of the context after an exception is undefined: the rest of the history starts afresh
+                            ctx.start_page("Pg")
+                            hist = []
+            finally:
+                ctx.db_conn.close()
+    return res
+
+
+INV_FNS = ["echo", "err", "pre", "tpl", "pyx", "pcx", "ext"]
+
+
+def _T(s):
+    return {"k": "t", "s": [s]}
+
+
+def _unit(rng, kind, names, in_body, depth=1):
+    """one call of the given kind (its arguments may hold further calls).  Argument references stand anywhere in template
+    bodies; on pages only at the top level of the text (the twin's law UnchangedWhenNothingSelected is stated for those)."""
+    def val():
+        r = rng.random()
+        if depth <= 0 or r < 0.45:
+            return [_T(rng.choice("abxy"))]
+        return [_unit(rng, rng.choice(KINDS if in_body else KINDS[:3]), names, in_body, depth - 1)]
+    if kind == "inv":
+        return {"k": "inv", "fn": rng.choice(INV_FNS), "args": [{"named": False, "key": [], "val": val()} for _ in range(rng.randint(0, 2))]}
+    if kind == "if":
+        return {"k": "if", "c": rng.choice([[], [_T("1")], val()]), "y": val(), "n": val()}
+    if kind == "c":
+        return {"k": "c", "name": rng.choice(names + ["NOPE"]),
+                "args": [({"named": True, "key": [_T("x")], "val": val()} if rng.random() < 0.3 else {"named": False, "key": [], "val": val()}) for _ in range(rng.randint(0, 2))]}
+    # argument reference (with a default that may hold a call)
+    has = rng.random() < 0.6
+    return {"k": "p", "name": [rng.choice(["1", "x"])], "hasDef": has, "def": val() if has else []}
+
+
+KINDS = ["inv", "if", "c", "p"]
+
+
+def _multi(rng, names, in_body):
+    """a text holding 2-3 calls of one kind (or of mixed kinds) in one of the places: side by side, inside the argument of a
+    template call, inside a branch of #if, inside a link."""
+    place = rng.choice(["flat", "flat", "arg", "branch", "link"])
+    kinds = KINDS if in_body or place == "flat" else KINDS[:3]
+    kind = rng.choice(kinds + ["mixed"])
+    units = []
+    for _ in range(rng.randint(2, 3)):
+        units.append(_unit(rng, rng.choice(kinds) if kind == "mixed" else kind, names, in_body))
+        if rng.random() < 0.5:
+            units.append(_T(rng.choice(["SP", ","])))
+    if place == "arg":
+        return [{"k": "c", "name": rng.choice(names), "args": [{"named": False, "key": [], "val": units}]}]
+    if place == "branch":
+        return [{"k": "if", "c": [_T("1")], "y": units, "n": []}]
+    if place == "link":
+        return [{"k": "l", "args": [[_T("a")], units]}]
+    return units
+
+
+def random_option_cases(rng, n):
+    """V: seeded random (library, need_pre_expand set, page, option vector); the pages and the template bodies hold several
+    calls of each kind; any template may call any other (cycles allowed)."""
+    cases = []
+    while len(cases) < n:
+        names = [f"T{i}" for i in range(1, rng.randint(2, 4) + 1)]
+        lib = {nm: [{"w": "plain", "c": _multi(rng, names, True)}] for nm in names}
+        need = sorted(nm for nm in names if rng.random() < 0.3)
+        for _ in range(6):  # six pages x option vectors per library: one context, histories over them
+            sub = lambda: sorted(nm for nm in names if rng.random() < 0.5)  # noqa: E731
+            he, hn = rng.random() < 0.4, rng.random() < 0.3
+            tf = rng.choice(["none", "none", "observe", "marker"])
+            op = {"pre": rng.random() < 0.4, "hasExp": he, "exp": sub() if he else [], "hasNot": hn, "nots": sub() if hn else [],
+                  "pfns": rng.random() < 0.6, "invoke": rng.random() < 0.5, "tfn": tf, "pfn": rng.choice(["none", "none", "observe", "replace"])}
+            cases.append({"lib": lib, "need": need, "page": _multi(rng, names, False), "o": op})
+    return cases[:n]
+
+
 def random_cyclic_cases(rng, n):
     cases = []
     for _ in range(n):
@@ -310,7 +472,8 @@ def random_cyclic_cases(rng, n):
 
 def run(tier: str) -> int:
     o = Outcome(PID, tier)
-    o.rule = ("(a) Gen_Expander universe C05: cyclic libraries x pages, deep nests; random cyclic libraries (V); nests 1..100 of four shapes; "
+    o.rule = ("(a) O: Gen_Expander universe C16Q (16 option combinations) + seeded random option vectors (FILE universe), each case on a fresh page and inside a "
+              "history of 3 calls on one started page. Gen_Expander universe C05: cyclic libraries x pages, deep nests; random cyclic libraries (V); nests 1..100 of four shapes; "
               "Gen_ExpanderDepth: nesting ladders = pattern of rung kinds x depth x split over page / template bodies (one case per ladder). "
               "(b) see c05b. distinct_nontrivial = distinct (cut/no-cut, body of A, page) + distinct parser-function cases")
     o.assumptions = ["wall-clock bound 20 s per small generated page", "network-dependent parser functions run with the network helper stubbed"]
@@ -319,6 +482,14 @@ def run(tier: str) -> int:
     ladders.start()
     ladder_demo = LadderTLC("Demo_ExpanderDepth_unbounded.cfg", False)
     ladder_demo.start()
+    # O: the option universe of the twin (generated beside the rest) and the seeded random option vectors
+    opt_gen = LadderTLC("Gen_Expander_C16Q.cfg", True, module="Gen_Expander")
+    opt_gen.start()
+    vo = random_option_cases(random.Random(common.seed() * 104729 + 9), 1600 if thorough else 400)
+    vo_scratch = Scratch("c05vo-")
+    (vo_scratch.path / "cases.json").write_text(json.dumps(vo))
+    vo_gen = LadderTLC("Gen_Expander_FILE.cfg", True, module="Gen_Expander", env={"CASE_FILE": str(vo_scratch.path / "cases.json")})
+    vo_gen.start()
     uni = "C05" if thorough else "C05Q"
     r = tlc("Gen_Expander", f"Gen_Expander_{uni}.cfg", workers=1, timeout=3000)
     o.add_tlc(f"Gen_Expander[{uni}] laws+cases", r)
@@ -357,6 +528,37 @@ def run(tier: str) -> int:
         m = model.get(common.json_key([c["lib"], c["page"]]))
         judge(o, m or {**c, "out": []}, ob, "V", model=m is not None)
         o.traces += 1
+    # O: options x histories
+    t_o = time.time()
+    try:
+        r = opt_gen.result()
+        rv = vo_gen.result()
+    finally:
+        vo_scratch.__exit__()
+    o.add_tlc("Gen_Expander[C16Q] option combinations x pages with several calls: laws+cases", r)
+    o.add_tlc("Gen_Expander[FILE] random option vectors x pages with several calls", rv)
+    vmodel = {common.json_key([c["lib"], c["need"], c["page"], c["o"]]): c for c in rv.cases}
+    ocases = [dict(c, origin="O") for c in r.cases]
+    for c in vo:
+        m = vmodel.get(common.json_key([c["lib"], c["need"], c["page"], c["o"]]))
+        ocases.append(dict(m or {**c, "out": []}, origin="VO", modelled=m is not None))
+    if sum(1 for c in ocases if c["origin"] == "VO" and c["modelled"]) < 0.9 * len(vo):
+        raise common.TLCError("the twin did not evaluate the random option cases (FILE universe)")
+    _G["ocases"] = ocases
+    print(f"[C05] options x histories: {len(r.cases)} cases of the twin's option universe + {len(vo)} random option vectors on the real code", flush=True)
+    nh = 0
+    for ob in pmap(option_chunk, ex.group_cases(ocases), chunk=2):
+        c = ocases[ob["idx"]]
+        judge(o, c, ob, c["origin"] + ("-history" if ob["history"] is not None else ""), model=c.get("modelled", True))
+        o.traces += 1
+        nh += ob["history"] is not None and len(ob["history"]) > 0
+        o.shape(("opt", opt_text(c["o"]), ob["src"][:60]))
+    o.extra["options_x_histories"] = {"wall_s_after_the_other_parts": round(time.time() - t_o, 1), "twin_universe_cases": len(r.cases), "random_option_cases": len(vo),
+                                      "distinct_option_vectors": len({common.json_key(c["o"]) for c in ocases}),
+                                      "calls_with_predecessors_on_the_same_page": nh,
+                                      "cases_with_expand_invoke_off_and_2+_invokes": sum(1 for c in ocases if not c["o"]["invoke"] and sum(1 for it in flat_items(c["page"]) if it.get("k") == "inv") >= 2)}
+    if o.extra["options_x_histories"]["cases_with_expand_invoke_off_and_2+_invokes"] < 10 or nh < 100:
+        raise common.TLCError("option x history universe is vacuous")
     # (b)
     try:
         c05b = importlib.import_module("c05b")
